@@ -2,7 +2,7 @@
    `safe_macros` is regenerated from the macro_rules! definitions in safe_*.rs on every run. *)
 From Coq Require Import String List Bool Arith.
 From CF Require Import Model.Tables Model.TableSem Proofs.TableProofs Proofs.FactsAsserts.
-From CF Require Import Gen.GenMacros.
+From CF Require Import Model.Exports Model.Safe Proofs.SafeSem Gen.GenExports Gen.GenSafe Gen.GenMacros Gen.GenDispatch.
 Import ListNotations.
 
 (* For each of the 8 safe macros and both forms: whenever the generated assert_eq! list passes on the actual
@@ -19,6 +19,34 @@ Proof. exact C01_asserts_proof. Qed.
 Theorem C01_every_macro_has_both_forms :
   forall m, In m safe_macros -> exists c a, safe_fn_of m Const = Some c /\ safe_fn_of m Any = Some a.
 Proof. exact C01_forms_proof. Qed.
+
+(* In the semantics of the generated tables (Model/Safe.run_safe): a call the wrapper's assert list rejects panics -
+   whatever the element type, the routine run by the selected slot, the build configuration, the dispatch outcome. *)
+Theorem C01_mismatch_panics :
+  forall s f bc p debug m sf, find_safe_macro safe_macros (s_macro s) = Some m -> safe_fn_of m f = Some sf ->
+  forall (T : Type) (rx : export -> form -> bool -> nat -> T -> list T -> list T -> list T -> xoutcome T)
+         DIMS v a b res,
+    asserts_pass {| len_a := List.length a; len_b := List.length b; len_r := List.length res; len_dims := DIMS |} (sf_asserts sf) = false ->
+    run_safe dispatch_chain rx exports safe_macros s f bc p debug DIMS v a b res = XPanicAssert.
+Proof. exact safe_mismatch_panics. Qed.
+
+(* ... and a call it accepts is run, by whichever slot the chain selects, with dims = len a on slices of exactly that
+   length (so C07's bounds theorem applies to the call): *)
+Theorem C01_accepted_calls_fit :
+  forall s f bc p m sf k x, In s safe_entries -> find_safe_macro safe_macros (s_macro s) = Some m ->
+    safe_fn_of m f = Some sf -> safe_kernel s = Some k ->
+    select_chain dispatch_chain bc p (supplied_of sf) = Some x ->
+    (exists e, slot_export exports m s f x = Some e /\ e_ty e = s_ty s /\ e_op e = k /\ e_reg e = allowed_backend x (s_ty s))
+    /\ forall (T : Type) DIMS (a b res : list T),
+         asserts_pass {| len_a := List.length a; len_b := List.length b; len_r := List.length res; len_dims := DIMS |} (sf_asserts sf) = true ->
+         dims_of f DIMS (List.length a) = List.length a
+         /\ (Kernels.kernel_uses_b k = true -> List.length b = List.length a)
+         /\ (Kernels.kernel_writes k = true -> List.length res = List.length a).
+Proof.
+  intros s f bc p m sf k x Hs Hm Hsf Hk Hsel. split.
+  - exact (selected_export s f bc p x m sf k Hs Hm Hsf Hk Hsel).
+  - intros T DIMS a b res. exact (asserts_give_fit s f m sf k Hs Hm Hsf Hk DIMS a b res).
+Qed.
 
 Example C01_nonvacuous :
   length safe_macros = 8 /\
